@@ -41,10 +41,10 @@ type absVal struct {
 	B     bool
 	I     int64
 	S     string
-	Name  string            // atom name
-	Obj   string            // object identity for field atoms: fields are atoms "<Obj>.<field>"
-	Tuple []absVal          // for calls returning several results
-	Tag   string            // free classification tag carried to the result (e.g. "suffix:touch")
+	Name  string   // atom name
+	Obj   string   // object identity for field atoms: fields are atoms "<Obj>.<field>"
+	Tuple []absVal // for calls returning several results
+	Tag   string   // free classification tag carried to the result (e.g. "suffix:touch")
 }
 
 func (a absVal) String() string {
@@ -89,7 +89,7 @@ type dtSpec struct {
 	// NoInline: repository functions that must not be inlined (they contain loops and are modelled by OnCall).
 	NoInline map[string]bool
 	// Event hook: instructions that are recorded on the path (effects), e.g. appends to a result variable.
-	OnInstr func(e *dtRun, ins ssa.Instruction) (event string)
+	OnInstr  func(e *dtRun, ins ssa.Instruction) (event string)
 	MaxDepth int
 }
 
